@@ -73,6 +73,7 @@ struct SlotState {
     phase: Phase,
     label: String,
     grant: bool,
+    cmd: u8, // 0 = run one step, 1 = (consumer at c_sleep) drop the pending recv() future
     ret: Option<(String, i64)>, // result of an API call that returned during the last step
     panic: Option<String>,
 }
@@ -90,6 +91,7 @@ impl Slot {
                 phase: Phase::Running,
                 label: String::new(),
                 grant: false,
+                cmd: 0,
                 ret: None,
                 panic: None,
             }),
@@ -147,10 +149,15 @@ impl Slot {
     }
 
     /// Controller side: let the parked thread run exactly one step.
-    fn grant(&self) -> Result<(Phase, String, Option<(String, i64)>), ()> {
+    fn cmd(&self) -> u8 {
+        self.st.lock().unwrap().cmd
+    }
+
+    fn grant(&self, cmd: u8) -> Result<(Phase, String, Option<(String, i64)>), ()> {
         {
             let mut g = self.st.lock().unwrap();
             g.ret = None;
+            g.cmd = cmd;
             g.grant = true;
             g.phase = Phase::Running;
             self.cv.notify_all();
@@ -257,6 +264,7 @@ struct Cfg {
     stop: bool,
     chan: bool,  // variant "chan": SampleQueueSender / ChannelMediaSource of pipeline.rs
     cmax: u64,   // chan: the consumer drops the receiver after this many recv() calls (0 = never)
+    ncons: i64,  // consumer threads calling recv() on the same track
     raw: Value,
 }
 
@@ -276,6 +284,7 @@ fn parse_cfg(v: &Value) -> Cfg {
         stop: v["stop"].as_bool().unwrap(),
         chan: v["variant"].as_str() == Some("chan"),
         cmax: v["cmax"].as_u64().unwrap_or(0),
+        ncons: v["ncons"].as_i64().unwrap_or(1),
         raw: v.clone(),
     }
 }
@@ -481,9 +490,12 @@ fn consumer_loop(slot: &Arc<Slot>, sh: &Arc<Shared>, cons: &mut Cons, wk: &Arc<F
                 }
                 Poll::Pending => {
                     if !slot.park("c_sleep") {
-                        return false; // cancelled: the future is dropped
+                        return false; // teardown: the future is dropped
                     }
                     wk.0.store(false, Ordering::SeqCst);
+                    if slot.cmd() == 1 {
+                        break; // the caller drops the pending future (select! / timeout) and will call recv() again
+                    }
                 }
             }
         }
@@ -496,7 +508,7 @@ struct Running {
     slots: BTreeMap<i64, Arc<Slot>>,
     joins: Vec<(i64, std::thread::JoinHandle<Option<Handle>>)>,
     obj: Option<Obj>,
-    wk: Arc<FlagWaker>,
+    wk: BTreeMap<i64, Arc<FlagWaker>>,
     windows: HashMap<i64, (String, i64)>,
     race: Vec<Value>,
 }
@@ -573,7 +585,7 @@ fn start(cfg: &Cfg, nonce: u64, seed: u64) -> Result<Running, String> {
         handles.insert(prods[0], Handle::Own(source));
     }
     }
-    let wk = Arc::new(FlagWaker(AtomicBool::new(false)));
+    let mut wk: BTreeMap<i64, Arc<FlagWaker>> = BTreeMap::new();
     let mut slots = BTreeMap::new();
     let mut joins = Vec::new();
     for p in &prods {
@@ -586,12 +598,21 @@ fn start(cfg: &Cfg, nonce: u64, seed: u64) -> Result<Running, String> {
         let pp = *p;
         joins.push((pp, spawn(pp, slot, move |s| producer_body(s, &shc, pp, &prog, h, keep))));
     }
-    {
+    let mut cons = Some(cons);
+    for ci in 0..cfg.ncons.max(1) {
+        let c = C + ci;
         let slot = Slot::new(abort.clone());
-        slots.insert(C, slot.clone());
+        slots.insert(c, slot.clone());
         let shc = sh.clone();
-        let w = wk.clone();
-        joins.push((C, spawn(C, slot, move |s| consumer_body(s, &shc, cons, w))));
+        let w = Arc::new(FlagWaker(AtomicBool::new(false)));
+        wk.insert(c, w.clone());
+        // a second consumer shares the track (recv takes &self); the channel receiver cannot be shared (&mut self)
+        let mine = match (ci, stop_track.as_ref()) {
+            (0, _) => cons.take().unwrap(),
+            (_, Some(t)) => Cons::Track(t.clone()),
+            _ => panic!("two consumers need a track"),
+        };
+        joins.push((c, spawn(c, slot, move |s| consumer_body(s, &shc, mine, w))));
     }
     if cfg.stop {
         let slot = Slot::new(abort.clone());
@@ -630,6 +651,13 @@ impl Running {
 
     /// Would granting `p` a step block inside a real lock / is the thread not runnable?
     fn refusal(&self, p: i64) -> Option<String> {
+        if p >= 1000 {
+            // the caller drops the consumer's pending future: only possible while recv() is suspended
+            let c = p - 1000;
+            let Some(_) = self.slots.get(&c) else { return Some("no such thread".into()) };
+            let (ph, l) = self.label(c);
+            return if ph == Phase::Parked && l == "c_sleep" { None } else { Some(format!("recv() is not suspended (at {l})")) };
+        }
         let Some(_) = self.slots.get(&p) else { return Some("no such thread".into()) };
         let (ph, l) = self.label(p);
         if ph == Phase::Done {
@@ -639,15 +667,16 @@ impl Running {
         match l.as_str() {
             "r_lock" if snap.pop_locked => Some("pop lock is held".into()),
             "src_lock" if snap.push_locked => Some("producer lock is held".into()),
-            "c_sleep" if !self.wk.0.load(Ordering::SeqCst) => Some("consumer sleeps, not woken".into()),
+            "c_sleep" if !self.wk[&p].0.load(Ordering::SeqCst) => Some("consumer sleeps, not woken".into()),
             _ => None,
         }
     }
 
     /// One step of thread `p`. Returns the observation record.
     fn step(&mut self, p: i64) -> Result<Value, String> {
+        let (p, cmd) = if p >= 1000 { (p - 1000, 1) } else { (p, 0) };
         let before = self.label(p).1;
-        let (ph, l, ret) = match self.slots[&p].grant() {
+        let (ph, l, ret) = match self.slots[&p].grant(cmd) {
             Ok(x) => x,
             Err(()) => return Err(format!("thread {p} did not reach a scheduling point within {STEP_DEADLINE:?} after label {before}")),
         };
@@ -674,8 +703,14 @@ impl Running {
             }
         }
         let snap = self.obj.as_ref().unwrap().snap();
-        let (cph, cl) = self.label(C);
-        let woken = cph == Phase::Parked && cl == "c_sleep" && self.wk.0.load(Ordering::SeqCst);
+        // bit i: consumer i is suspended in recv() and its waker has been called
+        let mut woken = 0i64;
+        for (i, (c, w)) in self.wk.iter().enumerate() {
+            let (cph, cl) = self.label(*c);
+            if cph == Phase::Parked && cl == "c_sleep" && w.0.load(Ordering::SeqCst) {
+                woken |= 1 << i;
+            }
+        }
         let (rs, got) = ret.unwrap_or((String::new(), 0));
         let _ = ph;
         Ok(json!({
@@ -772,7 +807,8 @@ struct EdgeX {
     head: u32,
     tail: u32,
     active: u16,
-    flags: u8, // closed, ended, poplocked, plocked, woken
+    flags: u8, // closed, ended, poplocked, plocked
+    woken: u8, // bit i: consumer i suspended and woken
     win: i8,
     live: i32,
     got: i32,
@@ -787,7 +823,8 @@ impl EdgeX {
             head: x["head"].as_u64().unwrap_or(0) as u32,
             tail: x["tail"].as_u64().unwrap_or(0) as u32,
             active: x["active"].as_u64().unwrap_or(0) as u16,
-            flags: b("closed", 0) | b("ended", 1) | b("poplocked", 2) | b("plocked", 3) | b("woken", 4),
+            flags: b("closed", 0) | b("ended", 1) | b("poplocked", 2) | b("plocked", 3),
+            woken: x["woken"].as_u64().unwrap_or(0) as u8,
             win: x["win"].as_i64().unwrap_or(-1) as i8,
             live: x["live"].as_i64().unwrap_or(0) as i32,
             got: x["got"].as_i64().unwrap_or(0) as i32,
@@ -796,7 +833,7 @@ impl EdgeX {
     fn to_json(&self, strs: &Intern) -> Value {
         let f = |bit: u8| self.flags & (1 << bit) != 0;
         json!({"lbl": strs.v[self.lbl as usize], "head": self.head, "tail": self.tail, "closed": f(0), "ended": f(1),
-               "active": self.active, "poplocked": f(2), "plocked": f(3), "woken": f(4), "live": self.live,
+               "active": self.active, "poplocked": f(2), "plocked": f(3), "woken": self.woken, "live": self.live,
                "ret": strs.v[self.ret as usize], "got": self.got, "win": self.win})
     }
 }
@@ -906,7 +943,7 @@ fn main() {
                         break; // teardown edge: handled below
                     }
                     nsteps += 1;
-                    let pre = run.label(*p).1;
+                    let pre = run.label(*p % 1000).1;
                     if let Some(why) = run.refusal(*p) {
                         out.push(&json!({"type":"divergence","rule": if pre == "c_sleep" {"NoLostWakeup"} else {"LockDiscipline"},
                             "kind":"not_runnable","field":"enabled","step":si,"thread":p,"at":pre,"detail":why,
@@ -1003,7 +1040,7 @@ fn main() {
                         continue;
                     }
                     if let Some(why) = run.refusal(p) {
-                        stopped = format!("thread {p} at {}: {why}", run.label(p).1);
+                        stopped = format!("thread {p} at {}: {why}", run.label(p % 1000).1);
                         break;
                     }
                     match run.step(p) {
@@ -1032,7 +1069,7 @@ fn main() {
                 }
                 let labels: BTreeMap<String, String> = run.slots.keys().map(|p| (p.to_string(), run.label(*p).1)).collect();
                 let snap = run.obj.as_ref().unwrap().snap();
-                let woken = run.wk.0.load(Ordering::SeqCst);
+                let woken = run.wk.values().any(|w| w.0.load(Ordering::SeqCst));
                 let race = run.race.clone();
                 let complete = followed == steps.len();
                 let (live, rec, _stuck) = if complete || !race.is_empty() {
